@@ -16,6 +16,13 @@ CONSTANTS Mode, MaxOps, MaxHist,
           CrashOn,                                                     \* "seq": crashes inside calls are explored
           Race                                                         \* KF_C18_CheckThenActRace is part of Next
 
+\* alphabets a .cfg cannot write (substituted with  LabelSeqs <- LS2  etc.)
+LS1 == {<<"A">>}
+LS2 == {<<>>, <<"A", "B">>}
+LS3 == {<<>>, <<"A">>, <<"A", "B">>}
+Ends1 == {<<1, 2>>}
+Ends2 == {<<1, 2>>, <<2, 2>>}
+
 VARIABLE hist
 vars == <<wal, kv, usage, quota, pc, call, res, G, pend, stale, hist>>
 
@@ -43,6 +50,8 @@ Unambiguous(o) ==
 IsCallRec(r) == r.op \notin {"Open", "Crash", "Restart", "Recover", "Step", "Begin"}
 NumCalls == Len(SelectSeq(hist, IsCallRec))
 
+NumRecovers == Len(SelectSeq(hist, LAMBDA r : r.op = "Recover"))
+
 NoLimit == [t \in Tenants |-> [n |-> Unlimited, e |-> Unlimited]]
 
 StepOf(p) ==
@@ -60,7 +69,7 @@ SeqNext ==
     \/ CrashOn /\ ~AllIdle /\ Crash /\ H([op |-> "Crash", at |-> pc[P1]])
     \/ CrashOn /\ AllIdle /\ stale = {} /\ Crash /\ H([op |-> "Crash", at |-> "idle"])
     \/ AllIdle /\ stale = {} /\ Crash /\ H([op |-> "Restart"])
-    \/ \E t \in Tenants : AllIdle /\ (t \in stale \/ ~CrashOn) /\ Recover(t) /\ H([op |-> "Recover", t |-> t])
+    \/ \E t \in stale : AllIdle /\ Recover(t) /\ H([op |-> "Recover", t |-> t])
 
 \* ------------------------------------------------------------------ "conc"
 ConcCall(p, k) ==
@@ -74,21 +83,17 @@ Begins(c, S) == IF S = {} THEN <<>>
 
 ConcInit ==
     \E qn \in ConcQuotas, qe \in ConcQuotas, ks \in [Procs -> ConcKinds] :
-        LET c == [p \in Procs |-> ConcCall(p, ks[p])] IN
-        /\ PInit([t \in Tenants |-> [n |-> qn, e |-> qe]])
-        /\ \* the quota of a kind nobody creates is irrelevant: fix it to the smallest value
-           (\A p \in Procs : ks[p] # "n") => qn = CHOOSE q \in ConcQuotas : \A r \in ConcQuotas : q <= r
-        /\ (\A p \in Procs : ks[p] # "e") => qe = CHOOSE q \in ConcQuotas : \A r \in ConcQuotas : q <= r
+        LET c == [p \in Procs |-> ConcCall(p, ks[p])]
+            least == CHOOSE q \in ConcQuotas : \A r \in ConcQuotas : q <= r IN
+        \* the quota of a kind nobody creates is irrelevant: fixed to the smallest value
+        /\ (\A p \in Procs : ks[p] # "n") => qn = least
+        /\ (\A p \in Procs : ks[p] # "e") => qe = least
+        /\ PInitC([t \in Tenants |-> [n |-> qn, e |-> qe]], c)
         /\ hist = <<[op |-> "Open", qn |-> qn, qe |-> qe]>> \o Begins(c, Procs)
-        /\ pc' = pc   \* (no-op; keeps the conjunct list uniform)
-ConcStart ==   \* all threads have entered their call; nobody has taken a step
-    /\ \E ks \in [Procs -> ConcKinds] : call' = [p \in Procs |-> ConcCall(p, ks[p])]
-    /\ pc' = [p \in Procs |-> "chk"]
-    /\ UNCHANGED <<wal, kv, usage, quota, res, G, pend, stale>>
 
 ConcNext ==
     \/ \E p \in Procs : StepOf(p) /\ H([op |-> "Step", p |-> p, k |-> pc[p]])
-    \/ \E t \in Tenants : AllIdle /\ Recover(t) /\ H([op |-> "Recover", t |-> t])
+    \/ \E t \in Tenants : AllIdle /\ NumRecovers < 2 /\ Recover(t) /\ H([op |-> "Recover", t |-> t])
 
 \* ------------------------------------------------------------------
 Init == IF Mode = "seq" THEN SeqInit ELSE ConcInit
@@ -101,6 +106,7 @@ LiveSpec == ConcInit /\ [][LiveNext]_vars /\ \A p \in Procs : WF_vars(StepOf(p) 
 EveryCallReturns == <>[]AllIdle
 
 View == <<wal, kv, usage, quota, pc, call, res, G, pend, stale>>
+ViewSeq == <<kv, usage, quota, pc, call, res, G, pend, stale>>    \* the log is write-only in this model: not part of state identity
 Bound == Len(hist) <= MaxHist
 
 Last(h) == h[Len(h)]
@@ -112,4 +118,5 @@ EmitQuiet == (~AllIdle /\ AllIdle') => PrintT(<<"SCRIPT", ToJson(hist')>>)
 \* ... or one per step transition (with VIEW; the harness drains the remaining threads)
 EmitStep == (hist' # hist /\ Last(hist').op = "Step") => PrintT(<<"SCRIPT", ToJson(hist')>>)
 SimEmit == Len(hist) = MaxHist => PrintT(<<"SCRIPT", ToJson(hist)>>)
+SimEmitQuiet == (Mode = "conc" /\ AllIdle) => PrintT(<<"SCRIPT", ToJson(hist)>>)
 =============================================================================
